@@ -117,6 +117,8 @@ def libffi_call_bug(s, gpr_before):
     and no cffi at all: `double f(double, int, int, int, int, int, struct {int; short; double;})`
     returns the struct's double.  Such signatures are only invoked from compiled C here."""
     g, sse = gpr_before, 0
+    if s['ret'] == 'struct big':
+        g += 1                      # MEMORY-class result: the hidden result pointer takes rdi
     for a in s['args']:
         if a in ('float', 'double'):
             ng, ns = 0, 1
